@@ -10,8 +10,9 @@
     HYPOTHESES-AS-CONTRACT (third-party streams; Section hypotheses below, NOT
     proved, validated only by the differential runs of harness/c20):
       Hr_new_ok Hr_reset_ok Hr_read_ok Hr_reset_fresh   readers: Reset of a usable
-          reader makes it observationally fresh whatever it processed before
-          (failed inputs included); nothing is assumed after a Reset that failed
+          reader makes it observationally fresh whatever it processed before;
+          nothing is assumed after a Reset that failed NOR after a Read that
+          reported an error (the wrapper drops such readers)
       Hw_new_ok Hw_reset_ok Hw_write_ok Hw_close_ok Hw_reset_fresh   writers
       Hw_enc Hr_dec enc_nonempty     the abstract codec is lossless: a fresh reader
           on [enc x] yields [x]  (C20_roundtrip_after_any_history only)
@@ -62,7 +63,7 @@ Section C20.
   Variable w_ok : W -> Prop.
   Hypothesis Hr_new_ok : forall src, snd (rd_new src) = false -> r_ok (fst (rd_new src)).
   Hypothesis Hr_reset_ok : forall s o, r_ok s -> snd (rd_reset s o) = false -> r_ok (fst (rd_reset s o)).
-  Hypothesis Hr_read_ok : forall s n, r_ok s -> r_ok (snd (rd_read s n)).
+  Hypothesis Hr_read_ok : forall s n, r_ok s -> snd (fst (rd_read s n)) <> Err -> r_ok (snd (rd_read s n)).
   Hypothesis Hr_reset_fresh : forall s src, r_ok s ->
     snd (rd_reset s (Some src)) = snd (rd_new src) /\
     (snd (rd_new src) = false -> obs_eq (fst (rd_reset s (Some src))) (fst (rd_new src))).
